@@ -117,6 +117,7 @@ def typingOps (op : String) (a : List String) : Option String :=
   | "cs.type", [_, sg, _] => (tyArg sg).map fun t => outHex (CallSite.callSiteType t)
   | "api.fix", [_] => some "ok"
   | "rename.ok", [_, _] => some "ok"
+  | "edit.as", [_, _] => some "ok"
   | "cs.type", [_, sg, _, _] => (tyArg sg).map fun t => outHex (CallSite.callSiteType t)
   | "ops.subst", _ :: _ => some "ok"
   | "gep.rt", e :: s :: idx => do
